@@ -59,7 +59,7 @@ class C02(Prop):
             'other terms / a clashing symbol or arity. (b) exhaustive: all ordered pairs of the 35 terms of depth <= 1 '
             'over {a, b, 1, X, Y, f/1, g/2} under the empty stack and under every single earlier binding X = t / Y = t '
             '(thorough: additionally all 1.6 million ordered pairs of the 1265 terms of depth <= 2 under the empty '
-            'stack). Checked against a reference unifier: yields 0 or 1 times (a second next() stops), yields iff an '
+            'stack). Checked against a reference unifier: yields 0 or 1 times (a second next() stops); a unifiable pair is unified a second time while the caller closes again and drops the finished iterator of the first run (the second run\'s bindings stay); yields iff an '
             'mgu exists, at the yield the joint reification of (pool variables, t1, t2) equals the reference\'s resolved '
             'tuple up to renaming (most general, aliasing preserved, t1 and t2 identical), unify(t2, t1) from a fresh '
             'copy of the state gives the same verdict and value, as does unify(t1, u2) with u2 = t2 built by another engine instance, and as does the run in which all generators (stack and pair) are created first and started afterwards in order, closing instead of exhausting also restores, and '
@@ -237,6 +237,31 @@ class C02(Prop):
             o = observe()
             if o != before_ref:
                 return ('not-restored', 'after the unification ended (%s): %s expected %s' % (ending, show(o), show(before_ref)))
+            if yielded:
+                # the same unification once more while the caller still holds the FINISHED iterator of the first run, closes
+                # it again (no effect on a finished iterator) and drops it: the bindings of the second run stay in place
+                old = g
+                if method:
+                    g2 = iter(left.unify(right))
+                else:
+                    g2 = iter(unify(e2, e1) if swap else unify(e1, e2))
+                try:
+                    next(g2)
+                except StopIteration:
+                    return ('second-run-fails', 'the same unification failed when it was run again')
+                try:
+                    closer = getattr(old, 'close', None)
+                    if closer is not None:
+                        closer()
+                    del old, g, closer
+                    o = observe()
+                    if o != at_ref:
+                        return ('finished-iterator-disturbs-later-bindings', 'second run, after the finished iterator of the first was closed again and dropped: %s expected %s' % (show(o), show(at_ref)))
+                finally:
+                    g2.close()
+                o = observe()
+                if o != before_ref:
+                    return ('not-restored', 'after the second run: %s expected %s' % (show(o), show(before_ref)))
         except RecursionError:
             return ('exception:RecursionError', 'RecursionError on a finite, NSTO case')
         except Budget:
